@@ -111,16 +111,16 @@ Proof.
   intros OK F. unfold cls_init_call. rewrite crel_present.
   destruct (forallb (present (enamed e)) (params s)) eqn:P; simpl.
   2:{ unfold direct_bind. rewrite (fill_incomplete _ _ P). reflexivity. }
-  destruct (has_va s) eqn:HV.
-  - destruct (list_args (pos s) (cattrs st)) as [[la|] K] eqn:L.
-    + rewrite (positional_form s (cattrs st) (cvattr st) la K W (crel_fit F _ (or_intror HV)) L).
-      rewrite (cr_vattr s st e R). apply crel_direct. apply OK.
-    + destruct (list_args_none _ _ _ (nodup_pos s W) L) as [n [I G]].
-      rewrite <- (crel_direct (eo_sorted s e OK)). unfold direct_bind.
-      rewrite (fill_missing (params s) (cattrs st) n); [reflexivity| |assumption].
-      unfold params; apply in_or_app; left; assumption.
-  - rewrite (keyword_form s (cattrs st) W (crel_fit F [] (or_introl eq_refl))).
-    unfold ev. rewrite (eo_noevar s e OK HV). apply crel_direct. apply OK.
+  assert (cvattr st = [] \/ has_va s = true) as VA.
+  { destruct (has_va s) eqn:HV; [right; reflexivity|left].
+    rewrite (cr_vattr s st e R). unfold ev. rewrite (eo_noevar s e OK HV). reflexivity. }
+  destruct (list_args (pos s) (cattrs st)) as [[la|] K] eqn:L.
+  - rewrite (positional_form s (cattrs st) (cvattr st) la K W (crel_fit F _ VA) L).
+    rewrite (cr_vattr s st e R). apply crel_direct. apply OK.
+  - destruct (list_args_none _ _ _ (nodup_pos s W) L) as [n [I G]].
+    rewrite <- (crel_direct (eo_sorted s e OK)). unfold direct_bind.
+    rewrite (fill_missing (params s) (cattrs st) n); [reflexivity| |assumption].
+    unfold params; apply in_or_app; left; assumption.
 Qed.
 End WithRel.
 
